@@ -108,6 +108,7 @@ def zoo_interior(cell, g):
         ("Scoord", x[0]("-") * f("-") * v("+") * dS),
         ("Sdefault", fc * x[0] * v("+") * dS),          # unrestricted continuous data: default restriction
         ("Sfarea", C.FacetArea(m) * f("+") * v("+") * dS) if td > 1 else None,
+        ("Sfarea2", C.FacetArea(m)("+") * f("-") * v("+") * dS) if td > 1 else None,
         ("Svol", C.CellVolume(m)("-") * f("-") * v("+") * dS),
     ]
     out = [o for o in out if o is not None]
@@ -135,6 +136,16 @@ def walk_sides(e, side=None, acc=None):
         else:
             stack.extend((o, sd) for o in a.ufl_operands)
     return acc
+
+
+def single_valued(t):
+    """terminals whose value on an interior facet does not depend on the side (continuity laws of C17)"""
+    from ufl.sobolevspace import H1
+    if isinstance(t, (C.Coefficient, C.Argument)):
+        return t.ufl_element() in H1
+    return isinstance(t, (C.Constant, C.SpatialCoordinate, C.FacetArea, C.MinFacetEdgeLength, C.MaxFacetEdgeLength,
+                          C.FacetJacobian, C.FacetJacobianDeterminant, C.FacetJacobianInverse, C.FacetOrigin,
+                          C.ReferenceCellVolume, C.ReferenceFacetVolume))
 
 
 SIDE_TXT = {None: "None", "+": "(Some true)", "-": "(Some false)"}
@@ -180,7 +191,10 @@ def build_case(name, m, form, opts, out=None, pres=None):
     the output integrand must equal (times the scaling factor)"""
     itype = form.integrals()[0].integral_type()
     if out is None:
-        fd = compute_form_data(form, **opts)
+        try:
+            fd = compute_form_data(form, **opts)
+        except Exception as e:  # noqa: BLE001  "preprocessing either does this or raises an error"
+            return f"compute_form_data raises {type(e).__name__}: {str(e)[:120]}"
         outs = [itg for idata in fd.integral_data for itg in idata.integrals]
         if len(outs) != 1:
             return f"expected one output integral, got {len(outs)}"
@@ -208,6 +222,8 @@ def build_case(name, m, form, opts, out=None, pres=None):
         for t, sds in sorted(occ_in.items(), key=lambda kv: repr(kv[0])):
             if None not in sds or isinstance(t, (C.QuadratureWeight, C.ConstantValue, C.MultiIndex, C.Label)):
                 continue
+            if not single_valued(t):
+                continue        # no law: silently picking a side for it cannot be proved
             used = occ_out.get(t, set())
             if None in used and len(used) == 1:
                 continue
@@ -253,6 +269,17 @@ def build_case(name, m, form, opts, out=None, pres=None):
             for sd in sides:
                 hyps.append(f"DEN {sd} rho {{{key}t}} {cl} = DEN {sd} rho {{{key}r}} {cl}")
         todo.extend(terminals(repl))
+    if interior:
+        # constants of the reference cell / global constants are the same seen from either side
+        k_ = 0
+        for t in sorted(done, key=repr):
+            if isinstance(t, (C.ReferenceCellVolume, C.ReferenceFacetVolume, C.Constant)):
+                named[f"Q{k_}"] = t
+                for c in comps(t.ufl_shape):
+                    cl = ufl2coq.natlist(c)
+                    for sd in sides:
+                        hyps.append(f"DEN {sd} rho {{Q{k_}}} {cl} = DEN None rho {{Q{k_}}} {cl}")
+                k_ += 1
     # non-degeneracy: the Jacobian determinant (as lowered, or as the terminal) is non-zero
     detJ = C.JacobianDeterminant(m)
     named["DJ"] = apply_geometry_lowering(detJ) if geom else detJ
@@ -388,17 +415,6 @@ def run_end_to_end(run):
         for (fname, form), o in itertools.product(forms, option_sets(run.tier)):
             tag = "".join("1" if o[k] else "0" for k in OPTS)
             name = f"e2e_{cell[:3]}{g}_{fname}_{tag}"
-            slow3d = g == 3 and o["do_apply_geometry_lowering"] and (
-                (td == 3 and fname in ("bmass", "flux") and o["do_apply_integral_scaling"]
-                 and (o["do_cancel_jacobian_products"] or o["do_remove_component_tensors"]))
-                or (td == 2 and fname in ("stiff", "nonlin", "div") and o["do_apply_function_pullbacks"]
-                    and o["do_remove_component_tensors"]))
-            if slow3d:
-                # measured on an idle machine: the ring/field normal form of exactly these 24 cases does not
-                # finish within 100 s (all other 3D cases take < 40 s); the same forms x options are covered on
-                # interval and triangle
-                skipped.append((name, "3D case whose polynomial normal form is too large (> 100 s)"))
-                continue
             try:
                 c = build_case(name, m, form, o)
             except ufl2coq.Unsupported as e:
@@ -469,7 +485,9 @@ def run_end_to_end(run):
             if w:
                 rep["witness"] = w
             run.violation(rep, bool(w))
-    run.extra["e2e_skipped"] = skipped[:40]
+    raised = [x for x in skipped if str(x[-1]).startswith("compute_form_data raises")]
+    run.extra["e2e_raised_allowed_by_statement"] = {"count": len(raised), "examples": raised[:6]}
+    run.extra["e2e_skipped"] = [x for x in skipped if x not in raised][:40]
 
 
 # ---------------------------------------------------------------------------------------------------
@@ -493,15 +511,32 @@ class FrameEnv(pyden.Env):
                 break
         self.J, self.detJ = J, d
         self.K = [[pyden.cof_f(g, lambda i, j: J[i][j], j, i) / d for j in range(g)] for i in range(g)]
+        # interior facets: each side has its own cell map (side None keeps the first one)
+        self.Js, self.Ks, self.dets = {None: J, "+": J}, {None: self.K, "+": self.K}, {None: d, "+": d}
+        while True:
+            J2 = [[pyden.Fraction(rng.randint(-3, 3), rng.choice([1, 2])) for _ in range(g)] for _ in range(g)]
+            d2 = pyden.det_f(g, lambda i, j: J2[i][j])
+            if d2 != 0:
+                break
+        self.Js["-"], self.dets["-"] = J2, d2
+        self.Ks["-"] = [[pyden.cof_f(g, lambda i, j: J2[i][j], j, i) / d2 for j in range(g)] for i in range(g)]
+
+    def side_dependent(self, t):
+        return not single_valued(t)
 
     def t_Jacobian(self, t, c, side):
-        return self.const(self.J[c[0]][c[1]])
+        return self.const(self.Js[side][c[0]][c[1]])
 
     def t_JacobianInverse(self, t, c, side):
-        return self.const(self.K[c[0]][c[1]])
+        return self.const(self.Ks[side][c[0]][c[1]])
 
     def t_JacobianDeterminant(self, t, c, side):
-        return self.const(self.detJ)
+        return self.const(self.dets[side])
+
+    def t_FacetNormal(self, t, c, side):
+        # affine non-manifold mesh: the two normals are opposite (only used while the normal is not lowered)
+        base = self.field(("facet normal", tuple(c)), constant=True)
+        return base * pyden.Fraction(-1) if side == "-" else base
 
     def t_QuadratureWeight(self, t, c, side):
         return self.const(pyden.Fraction(1, 3))
@@ -509,8 +544,9 @@ class FrameEnv(pyden.Env):
     def refgrad(self, a, c, k, rho, side, memo):
         # d/dX_k = sum_i J[i][k] d/dx_i
         tot = self.zero()
+        sd = a.side() if isinstance(a, C.Restricted) else side     # reference_grad((f)(-)): the cell map of that side
         for i in range(self.g):
-            tot = tot + pyden._ev(a, self, rho, tuple(c), side, memo).diff(i) * self.J[i][k]
+            tot = tot + pyden._ev(a, self, rho, tuple(c), side, memo).diff(i) * self.Js[sd][i][k]
         return tot
 
 
@@ -530,7 +566,14 @@ def numeric_check(form, opts, trials=6, seed=0, out=None, pres=None):
             out = fd.integral_data[0].integrals[0].integrand()
         if pres is None:
             pres = [preprocess_form(form, False).integrals()[0].integrand()]
-        if form.integrals()[0].integral_type() != "cell":
+        itype = form.integrals()[0].integral_type()
+        if itype not in ("cell", "interior_facet"):
+            return None
+        if itype == "interior_facet" and opts.get("do_apply_geometry_lowering"):
+            return None     # would need a geometrically consistent pair of cells; search the unlowered option sets
+        from ufl.pullback import IdentityPullback
+        if any(not isinstance(a_.ufl_element().pullback, IdentityPullback)
+               for a_ in list(form.arguments()) + list(form.coefficients())):
             return None
         rng = random.Random(seed)
         for t in range(trials):
@@ -541,7 +584,11 @@ def numeric_check(form, opts, trials=6, seed=0, out=None, pres=None):
                 v_ = pyden.evaluate(p_, env)
                 b = v_ if b is None else b + v_
             if opts.get("do_apply_integral_scaling"):
-                b = b * abs(env.detJ) * pyden.Fraction(1, 3)
+                if itype == "cell":
+                    b = b * abs(env.detJ) * pyden.Fraction(1, 3)
+                else:
+                    sc = ufl.as_ufl(compute_integrand_scaling_factor(form.integrals()[0])[0])
+                    b = b * pyden.evaluate(sc, env)
             if not a.close_to(pyden.Jet.const(a.nv, a.order, b.value())) and a.value() != b.value():
                 return {"options": [k for k, v in opts.items() if v], "form": str(form)[:300],
                         "output_integrand": str(out)[:300], "inputs_applying_there": [str(p_)[:120] for p_ in pres],
